@@ -89,6 +89,7 @@ POOL = [
     ("ORGANIZER;SENT-BY=\"mailto:s@example.com\":mailto:org@example.com", "ORGANIZER", {"SENT-BY": "mailto:s@example.com"},
      T("mailto:org@example.com"), None),
     ("GEO:37.386013;-122.082932", "GEO", {}, lambda v: (getattr(v, "latitude", None), getattr(v, "longitude", None)) == (37.386013, -122.082932), None),
+    ("GEO:0.0000123456;-0.00000045", "GEO", {}, lambda v: (getattr(v, "latitude", None), getattr(v, "longitude", None)) == (1.23456e-05, -4.5e-07), None),
     ("PRIORITY:5", "PRIORITY", {}, lambda v: isinstance(v, int) and int(v) == 5, None),
     ("SEQUENCE:0", "SEQUENCE", {}, lambda v: isinstance(v, int) and int(v) == 0, None),
     ("CATEGORIES:ONE", "CATEGORIES", {}, lambda v: [str(c) for c in getattr(v, "cats", [])] == ["ONE"], None),
